@@ -22,7 +22,8 @@ def tables(rnd, quick):
                     if ck == 5:
                         df = (df & ~0xFFFF) | 2
                     sz = SIZE[ty]
-                    areas = [area(2, 1 + sz + 1, kind=kind)]
+                    rd, wr = rnd.choice([(1, 1), (1, 1), (0, 1), (1, 0)])      # also write-only and read-only-by-flag areas: typed access does not depend on the flags
+                    areas = [area(2, 1 + sz + 1, rd=rd, wr=wr, kind=kind)]
                     regs = [reg(U16, 2, 0, 0, 0, 0x5555), reg(ty, 3, ck, lo, hi, df), reg(U16, 3 + sz, 0, 0, 0, 0xAAAA)]
                     yield be, ty, ck, lo, hi, ins, outs, areas, regs
 
